@@ -204,9 +204,9 @@ def run_path(repo, registry, func: VFunc, contract, prefix, feas_ms):
             for en in exc_names:
                 cond = it.truthy(it.eval_contract_fn(contract, "raises_" + en, dict(bound), fr.entry_heap, fr.entry_env, in_old_state=True))
                 path.oblige(f"{fr.qualname}#noraise:{en}", z3.Not(cond), line=line, kind="raises")
-            if "ensures" in contract.funcs:
-                post = it.truthy(it.eval_contract_fn(contract, "ensures", values, fr.entry_heap, fr.entry_env))
-                path.oblige(f"{fr.qualname}#post", post, line=line, kind="post")
+            for en_ in sorted(n for n in contract.funcs if n == "ensures" or n.startswith("ensures_") and n != "ensures_raise"):
+                post = it.truthy(it.eval_contract_fn(contract, en_, values, fr.entry_heap, fr.entry_env))
+                path.oblige(f"{fr.qualname}#post" + (":" + en_[8:] if en_ != "ensures" else ""), post, line=line, kind="post")
             frame_obligations(it, fr, contract, False, "normal", line)
             info["outcome"] = "normal"
         else:
